@@ -20,6 +20,10 @@ pub struct Case {
     pub recipe_seed: u64,
     pub deltas: Vec<u128>,
     pub dealer: bool,
+    /// trusted dealer only: this party flips the bit of its left (true) / right share of triple
+    /// `idx` in what it submits, keeping the MACs (party, idx, left)
+    #[serde(default)]
+    pub cheat: Option<(usize, usize, bool)>,
     pub sched: SchedSpec,
 }
 
@@ -124,6 +128,18 @@ pub fn test_case(c: &Case) -> Result<CaseInfo, Fail> {
     let mut sched = c.sched.build();
     let res = run_world(&world, tasks, sched.as_mut(), &ExecCfg { record_probes: false, ..Default::default() }, || {});
     let mut outs = vec![];
+    if c.dealer && c.cheat.is_some() && (0..n).any(|p| !matches!(res.outcomes[p], Outcome::Ok(_))) {
+        // the dealer refused the unauthenticated shares: nobody may panic, that is all
+        if let Some(p) = (0..=n).find(|p| matches!(res.outcomes[*p], Outcome::Panic(_))) {
+            return Err(Fail::new("C10|dealer-panic", format!("endpoint {p} panicked when party {:?} submitted unauthenticated shares: {}", c.cheat, crate::run::short(&res.outcomes[p]))));
+        }
+        return Ok(CaseInfo {
+            nontrivial: Some(hash_of(&serde_json::to_string(c).unwrap())),
+            classes: vec![format!("n={n}"), "dealer".into(), "dealer:cheater-refused".into()],
+            sample: Some(json!({"n": n, "l": c.l, "dealer": true, "cheat": c.cheat, "refused": true})),
+            ..Default::default()
+        });
+    }
     for p in 0..n {
         match &res.outcomes[p] {
             Outcome::Ok(o) => outs.push(o.clone()),
@@ -139,7 +155,7 @@ pub fn test_case(c: &Case) -> Result<CaseInfo, Fail> {
         let beta = outs.iter().fold(false, |acc, o| acc ^ o.alpha_beta[j].1.0);
         let sigma = outs.iter().fold(false, |acc, o| acc ^ o.sigma[j].0);
         if sigma != (alpha && beta) {
-            return Err(Fail::new("C10|and-relation", format!("triple {j} of {}: XOR of sigma shares = {sigma}, alpha = {alpha}, beta = {beta} (n={n}, bucket size {b}, dealer={})", c.l, c.dealer)));
+            return Err(Fail::new(if c.cheat.is_some() { "C10|dealer-accepted-unauthenticated-shares" } else { "C10|and-relation" }, format!("triple {j} of {}: XOR of sigma shares = {sigma}, authenticated alpha = {alpha}, beta = {beta} (n={n}, bucket size {b}, dealer={}, submitted with a flipped bit and the old MACs by {:?})", c.l, c.dealer, c.cheat)));
         }
     }
     if outs.iter().any(|o| o.sigma.len() != c.l || o.base.len() != c.base) {
@@ -191,7 +207,20 @@ async fn dealer_client(ch: &crate::sim::net::SimChannel, p: usize, n: usize, c: 
     let Some(Val::Seq(rs)) = decode_msg(&r, &share_ty) else { return Err("bad random shares".into()) };
     let base: Vec<PShare> = rs.iter().filter_map(from_val).collect();
     let alpha_beta: Vec<(PShare, PShare)> = rec.iter().map(|(a, b)| (build(&base, a, n), build(&base, b, n))).collect();
-    let msg = Val::Seq(alpha_beta.iter().map(|(a, b)| Val::Tup(vec![to_val(a), to_val(b)])).collect());
+    let mut submitted = alpha_beta.clone();
+    if let Some((cp, idx, left)) = c.cheat {
+        if cp == p && !submitted.is_empty() {
+            let k = idx % submitted.len();
+            let target = if left { &mut submitted[k].0 } else { &mut submitted[k].1 };
+            // the dealer treats a zero MAC as "no MAC" (own-index sentinel), so a share whose MACs
+            // are zero (the XOR of a share with itself) carries nothing that could contradict the
+            // bit: only shares with real MACs are submitted with a flipped bit
+            if target.1.iter().enumerate().all(|(j, (m, _))| j == p || *m != 0) {
+                target.0 ^= true;
+            }
+        }
+    }
+    let msg = Val::Seq(submitted.iter().map(|(a, b)| Val::Tup(vec![to_val(a), to_val(b)])).collect());
     ch.send_bytes_to(n, encode_msg(&msg), "AND shares").await.map_err(e)?;
     let s = ch.recv_bytes_from(n, "AND shares").await.map_err(e)?;
     let Some(Val::Seq(ss)) = decode_msg(&s, &share_ty) else { return Err(format!("bad AND shares reply ({} bytes): {:?}", s.len(), String::from_utf8_lossy(&s[..s.len().min(80)]))) };
@@ -213,20 +242,33 @@ fn gen_case(max_l: usize, dealer_prob: u32) -> impl Strategy<Value = Case> {
         };
         // keep n=5 cases small (cost)
         let l = if n >= 4 { l.min(60) } else { l };
-        Case { n, l, base, recipe_seed, deltas: deltas[..n].to_vec(), dealer: dp < dealer_prob, sched }
+        let dealer = dp < dealer_prob;
+        // every other dealer case has one party that submits a flipped bit under the old MACs
+        let cheat = (dealer && recipe_seed % 2 == 0).then(|| (((recipe_seed >> 8) as usize) % n, ((recipe_seed >> 16) as usize) % l.max(1), (recipe_seed >> 4) & 1 == 1));
+        Case { n, l, base, recipe_seed, deltas: deltas[..n].to_vec(), dealer, cheat, sched }
     })
 }
 
 pub fn run(tier: Tier, seed: u64) -> i32 {
     let ctx = Ctx::new("C10", tier, seed, "exploration");
-    ctx.set_rule("proptest: n in 2..5 x batch length l (1..12, boundary values where (l*15+160) crosses a multiple of 128, up to 600 in quick / 5000 in thorough, plus 3100 (bucket size 4) and in thorough 280000 at n=2 (bucket size 3)) x alpha/beta shares built as XOR of 0..3 random outputs of a previous aShare call (zero share, alpha=beta, shared operands) x global keys x schedule, through the real aShare / Beaver-aAND code (plain-typed wrappers) and through the trusted dealer speaking the engine's wire format; oracle: for every index and ordered pair (i,j) MAC_i[j] = key_j[i] XOR bit_i*delta_j for random shares and AND shares, XOR of sigma shares = (XOR alpha)(XOR beta), identical multi-party and pairwise coins; non-trivial = l >= 2 with some alpha != beta; distinct by hash of the case");
+    ctx.set_rule("proptest: n in 2..5 x batch length l (1..12, boundary values where (l*15+160) crosses a multiple of 128, up to 600 in quick / 5000 in thorough, plus 3100 (bucket size 4) and in thorough 280000 at n=2 (bucket size 3)) x alpha/beta shares built as XOR of 0..3 random outputs of a previous aShare call (zero share, alpha=beta, shared operands) x global keys x schedule, through the real aShare / Beaver-aAND code (plain-typed wrappers) and through the trusted dealer speaking the engine's wire format (every other dealer case: one party, any index, submits a left/right share (one with non-zero MACs) with a flipped bit under the old MACs - the dealer must refuse, or the AND shares it hands out must still satisfy the relation for the authenticated inputs); oracle: for every index and ordered pair (i,j) MAC_i[j] = key_j[i] XOR bit_i*delta_j for random shares and AND shares, XOR of sigma shares = (XOR alpha)(XOR beta), identical multi-party and pairwise coins; non-trivial = l >= 2 with some alpha != beta; distinct by hash of the case");
     prop_search(&ctx, "c10", tier.pick(140, 6000), || gen_case(tier.pick(600, 5000), 25), test_case);
     if !ctx.stopped() {
         // bucket size 4 (l >= 3100) and, in thorough, 3 (l >= 280000)
-        let mut big = vec![Case { n: 2, l: 3100, base: 6, recipe_seed: seed, deltas: vec![seed as u128 | 1 << 100, !(seed as u128)], dealer: false, sched: SchedSpec::Eager }, Case { n: 2, l: 3099, base: 6, recipe_seed: seed + 1, deltas: vec![7, 1 << 127], dealer: false, sched: SchedSpec::Eager }];
+        let mut big = vec![Case { n: 2, l: 3100, base: 6, recipe_seed: seed, deltas: vec![seed as u128 | 1 << 100, !(seed as u128)], dealer: false, cheat: None, sched: SchedSpec::Eager }, Case { n: 2, l: 3099, base: 6, recipe_seed: seed + 1, deltas: vec![7, 1 << 127], dealer: false, cheat: None, sched: SchedSpec::Eager }];
         if tier == Tier::Thorough {
-            big.push(Case { n: 3, l: 3100, base: 4, recipe_seed: seed + 2, deltas: vec![1, 2, 3], dealer: false, sched: SchedSpec::Eager });
-            big.push(Case { n: 2, l: 280_000, base: 8, recipe_seed: seed + 3, deltas: vec![u128::MAX, 5], dealer: false, sched: SchedSpec::Eager });
+            big.push(Case { n: 3, l: 3100, base: 4, recipe_seed: seed + 2, deltas: vec![1, 2, 3], dealer: false, cheat: None, sched: SchedSpec::Eager });
+            big.push(Case { n: 2, l: 280_000, base: 8, recipe_seed: seed + 3, deltas: vec![u128::MAX, 5], dealer: false, cheat: None, sched: SchedSpec::Eager });
+        }
+        // trusted dealer: every party index as the one that submits a flipped bit under the old MACs
+        for n in 2..=tier.pick(4usize, 5) {
+            for party in 0..n {
+                for left in [true, false] {
+                    for idx in 0..tier.pick(4usize, 12) {
+                        big.push(Case { n, l: 12, base: 5, recipe_seed: seed.wrapping_mul(977).wrapping_add((n * 1000 + party * 100 + idx) as u64), deltas: (0..n).map(|k| (seed as u128 + 1) << (k * 7)).collect(), dealer: true, cheat: Some((party, idx, left)), sched: SchedSpec::Eager });
+                    }
+                }
+            }
         }
         crate::fw::enumerate(&ctx, &big, test_case);
     }
